@@ -181,6 +181,9 @@ def cond_shape(cond):
         d['why'] = "stochastic disjunct `%s` is not guarded by a conjunction with T > 0" % unparen(S(b))
         return d
     g, r = [strip(x) for x in b['inner']]
+    while g.get('kind') == 'UnaryOperator' and g.get('opcode') == '!' and strip(g['inner'][0]).get('kind') == 'UnaryOperator' \
+            and strip(g['inner'][0]).get('opcode') == '!':
+        g = strip(strip(g['inner'][0])['inner'][0])          # !!x is x in a condition
     if not (g.get('kind') == 'BinaryOperator' and g.get('opcode') == '>' and unparen(S(g['inner'][1])) in ('0', '0.0', '0.')):
         d['why'] = "guard `%s` of the stochastic disjunct is not `T > 0`" % unparen(S(g))
         return d
@@ -526,18 +529,62 @@ def schedule_rules(ctx, rid):
              "an explicit (non-string) schedule is not returned unchanged as list(schedule)")
     # any assignment overriding T0 / Tf after they were read must be under `temperature_range is None`
     t_names = None
+    ATR = 'anneal_temperature_range'
+
+    def tr_test(t, want_given):
+        """`t` is true exactly when temperature_range was given (want_given) / was not given"""
+        at = compare_atoms(t, True)
+        if want_given:
+            return ('truthy', tr) in at or (tr, 'is not', 'None') in at
+        return ('falsy', tr) in at or (tr, 'is', 'None') in at
+    arms = {}          # target names -> {'given': stmt, 'auto': stmt}
+    defining = set()
     for n in g.stmts():
-        if isinstance(n, ast.Assign) and isinstance(n.targets[0], ast.Tuple) and tr in src(n.value) and 'anneal_temperature_range' in src(n.value):
-            t_names = [src(e) for e in n.targets[0].elts]
-            okv = isinstance(n.value, ast.BoolOp) and isinstance(n.value.op, ast.Or) and src(n.value.values[0]) == tr
+        if not (isinstance(n, ast.Assign) and isinstance(n.targets[0], ast.Tuple) and len(n.targets[0].elts) == 2):
+            continue
+        v, vs = n.value, src(n.value)
+        has_tr = any(isinstance(x, ast.Name) and x.id == tr for x in ast.walk(v))
+        if not has_tr and ATR not in vs:
+            continue
+        names = tuple(src(e) for e in n.targets[0].elts)
+        is_atr = isinstance(v, ast.Call) and call_name(v) == ATR
+        if has_tr and ATR in vs:
+            t_names = list(names)
+            defining.add(n)
+            okv = isinstance(v, ast.BoolOp) and isinstance(v.op, ast.Or) and len(v.values) == 2 and src(v.values[0]) == tr
+            if isinstance(v, ast.IfExp):
+                okv = (tr_test(v.test, True) and src(v.body) == tr and isinstance(v.orelse, ast.Call) and call_name(v.orelse) == ATR) or \
+                      (tr_test(v.test, False) and src(v.orelse) == tr and isinstance(v.body, ast.Call) and call_name(v.body) == ATR)
             ctx.inst(rid, fn, n, okv, "a given temperature range takes precedence over the computed one" if okv else
                      "the temperatures are not `temperature_range or anneal_temperature_range(...)`")
+        elif vs == tr or is_atr:
+            facts = []
+            for t, pol, o in g.edge_dominators(n):
+                facts += compare_atoms(t, pol)
+            given = ('truthy', tr) in facts or (tr, 'is not', 'None') in facts
+            absent = ('falsy', tr) in facts or (tr, 'is', 'None') in facts
+            if vs == tr and given:
+                arms.setdefault(names, {})['given'] = n
+                defining.add(n)
+            elif is_atr and absent:
+                arms.setdefault(names, {})['auto'] = n
+                defining.add(n)
+            elif is_atr:
+                defining.add(n)
+                ctx.inst(rid, fn, n, False, "the temperatures are computed automatically also when temperature_range is given: "
+                                            "the temperatures are not `temperature_range or anneal_temperature_range(...)`")
+    for names, d in arms.items():
+        okv = 'given' in d and 'auto' in d
+        t_names = t_names or list(names)
+        ctx.inst(rid, fn, d.get('given') or d.get('auto'), okv,
+                 "a given temperature range takes precedence over the computed one (two arms)" if okv else
+                 "the temperatures are not `temperature_range or anneal_temperature_range(...)`: only one arm of the choice assigns them")
     if not t_names:
         ctx.inst(rid, fn, 'T0, Tf', False, "temperature pair not found")
         return
     for n in g.stmts():
         if isinstance(n, ast.Assign) and any(src(t) in t_names for tt in n.targets for t in ([tt] if not isinstance(tt, ast.Tuple) else tt.elts)) \
-                and 'anneal_temperature_range' not in src(n.value):
+                and 'anneal_temperature_range' not in src(n.value) and n not in defining:
             facts = []
             for t, pol, o in g.edge_dominators(n):
                 facts += compare_atoms(t, pol)
